@@ -627,7 +627,17 @@ fn arm_cpu_limit(cap_s: u64) {
     }
 }
 
+fn process_cpu_ms() -> u64 {
+    // SAFETY: plain libc call on a zero-initialised struct.
+    unsafe {
+        let mut ru: libc::rusage = std::mem::zeroed();
+        libc::getrusage(libc::RUSAGE_SELF, &mut ru);
+        (ru.ru_utime.tv_sec + ru.ru_stime.tv_sec) as u64 * 1000 + (ru.ru_utime.tv_usec + ru.ru_stime.tv_usec) as u64 / 1000
+    }
+}
+
 fn child_body(spec: &Value, out: &mut ChildOut) {
+    let cpu0 = process_cpu_ms();
     let lang = Lang::from_name(spec["lang"].as_str().unwrap_or(""));
     let mode = spec["mode"].as_str().unwrap_or("");
     let mut tally = Tally::default();
@@ -815,7 +825,9 @@ fn child_body(spec: &Value, out: &mut ChildOut) {
         }
         other => vcommon::machinery_failure(&format!("unknown child mode {other:?}")),
     }
-    out.line(&format!("R {}", tally.to_json()));
+    let mut result = tally.to_json();
+    result["cpu_ms"] = json!(process_cpu_ms() - cpu0);
+    out.line(&format!("R {result}"));
 }
 
 /// Worker process: reads one job spec (a JSON line) at a time from stdin, runs it on a fresh
@@ -946,7 +958,8 @@ fn shutdown_workers() {
 /// wall time).
 fn run_child(scratch: &Path, mut spec: Value, cpu_cap_s: u64, cases: u64) -> ChildRun {
     JOBS.fetch_add(1, Ordering::Relaxed);
-    let per_case = cases > 1 || spec["mode"] == "single";
+    // a traced re-run writes a line per case: it is watched for progress as well
+    let per_case = cases > 1 || spec["mode"] == "single" || spec["trace"] == true;
     spec["cpu_cap_s"] = json!(cpu_cap_s);
     let mut worker = IDLE_WORKERS.lock().unwrap().pop().unwrap_or_else(|| Worker::spawn(scratch));
     let t0 = Instant::now();
@@ -959,17 +972,18 @@ fn run_child(scratch: &Path, mut spec: Value, cpu_cap_s: u64, cases: u64) -> Chi
     let mut killed_by_watchdog = false;
     let mut last_progress = Instant::now();
     let mut last_len = worker.offset;
-    let read_new = |w: &Worker| -> String {
+    let read_from = |w: &Worker, from: u64| -> String {
         use std::io::Read as _;
         use std::io::Seek as _;
         let mut buf = Vec::new();
         if let Ok(mut f) = std::fs::File::open(&w.out_path) {
-            if f.seek(std::io::SeekFrom::Start(w.offset)).is_ok() {
+            if f.seek(std::io::SeekFrom::Start(from)).is_ok() {
                 let _ = f.read_to_end(&mut buf);
             }
         }
         String::from_utf8_lossy(&buf).into_owned()
     };
+    let read_new = |w: &Worker| -> String { read_from(w, w.offset) };
     // `Some(status)` if the worker died, `None` if the job finished and the worker lives on
     let status = loop {
         match worker.child.try_wait() {
@@ -981,8 +995,9 @@ fn run_child(scratch: &Path, mut spec: Value, cpu_cap_s: u64, cases: u64) -> Chi
         if len != last_len {
             last_len = len;
             last_progress = Instant::now();
-            let new = read_new(&worker);
-            if new.ends_with('\n') && new.lines().last().is_some_and(|l| l.starts_with("R ")) {
+            // only the tail is needed to see the job's final `R` line
+            let tail = read_from(&worker, worker.offset.max(len.saturating_sub(1 << 18)));
+            if tail.ends_with('\n') && tail.lines().last().is_some_and(|l| l.starts_with("R ")) {
                 break None;
             }
         }
@@ -1054,6 +1069,7 @@ struct SingleResult {
     /// (depth, entry, "ok"|"err"|"panic", detail)
     done: Vec<(usize, String, String, String)>,
     wall_ms: u128,
+    cpu_ms: u64,
 }
 
 fn run_single(scratch: &Path, spec: Value, cpu_cap_s: u64) -> SingleResult {
@@ -1084,7 +1100,8 @@ fn run_single(scratch: &Path, spec: Value, cpu_cap_s: u64) -> SingleResult {
             in_progress_entry = None;
         }
     }
-    SingleResult { exit: run.exit, completed, in_progress_depth, in_progress_entry, done, wall_ms: run.wall_ms }
+    let cpu_ms = result_of(&run)["cpu_ms"].as_u64().unwrap_or(0);
+    SingleResult { exit: run.exit, completed, in_progress_depth, in_progress_entry, done, wall_ms: run.wall_ms, cpu_ms }
 }
 
 fn crash_kind(exit: &Exit) -> Option<&'static str> {
@@ -1098,6 +1115,7 @@ fn crash_kind(exit: &Exit) -> Option<&'static str> {
 struct Shared<'a> {
     ctx: &'a Ctx,
     child_ms: Mutex<BTreeMap<String, u64>>,
+    child_cpu_ms: Mutex<BTreeMap<String, u64>>,
     capped: Mutex<Vec<Value>>,
     totals: Mutex<BTreeMap<String, Value>>,
     samples: Mutex<Vec<Value>>,
@@ -1110,6 +1128,7 @@ struct Shared<'a> {
 
 impl Shared<'_> {
     fn add_tally(&self, key: &str, r: &Value) {
+        *self.child_cpu_ms.lock().unwrap().entry(key.to_owned()).or_default() += r["cpu_ms"].as_u64().unwrap_or(0);
         self.evals.fetch_add(r["evals"].as_u64().unwrap_or(0), Ordering::Relaxed);
         self.cases.fetch_add(r["cases"].as_u64().unwrap_or(0), Ordering::Relaxed);
         self.nontrivial.fetch_add(r["nontrivial"].as_u64().unwrap_or(0), Ordering::Relaxed);
@@ -1202,10 +1221,17 @@ fn run_shard(sh: &Shared, key: &str, spec: Value, cpu_cap_s: u64) {
                     ),
                     json!({"lang": lang, "text": text, "aliases": aliases, "family": family}),
                 ),
-                _ => vcommon::machinery_failure(&format!(
-                    "shard {spec} died ({:?}) but the traced re-run did not reproduce it ({:?})",
-                    run.exit, rerun.exit
-                )),
+                // The traced re-run did not get to the crash (capped, or not reproduced): the
+                // shard as a whole is the case.
+                _ => sh.ctx.violation(
+                    &format!("C36/{lang}/short-input/{family}/{kind}"),
+                    format!(
+                        "{lang}: the child process died ({:?}) while running the shard {spec}; the traced re-run \
+                         ended with {:?}, so the input is not isolated",
+                        run.exit, rerun.exit
+                    ),
+                    json!({"lang": lang, "family": family, "shard": spec}),
+                ),
             }
         }
     }
@@ -1254,6 +1280,7 @@ fn run_ladder(
     // overflows or hits the per-case cap, and larger rungs are not attempted after that.
     let r = run_single(scratch, spec_for(rungs), cpu_cap_s);
     *sh.child_ms.lock().unwrap().entry(key.clone()).or_default() += r.wall_ms as u64;
+    *sh.child_cpu_ms.lock().unwrap().entry("ladders".to_owned()).or_default() += r.cpu_ms;
     sh.cases.fetch_add((r.completed.len() + r.in_progress_depth.is_some() as usize) as u64, Ordering::Relaxed);
     sh.evals.fetch_add(r.done.len() as u64 + r.in_progress_entry.is_some() as u64, Ordering::Relaxed);
     rep.rungs_run = r.completed.clone();
@@ -1351,6 +1378,25 @@ fn run_ladder(
 
 fn replay(ctx: &Ctx, case: &Value, cpu_cap_s: u64) {
     let lang = case["lang"].as_str().unwrap_or("");
+    if case["shard"].is_object() {
+        let run = run_child(ctx.scratch(), case["shard"].clone(), 1500, 1);
+        if let Some(kind) = crash_kind(&run.exit) {
+            let family = case["family"].as_str().unwrap_or("input");
+            ctx.violation(
+                &format!("C36/{lang}/short-input/{family}/{kind}"),
+                format!("replay: the process died ({:?}) while running the shard", run.exit),
+                case.clone(),
+            );
+        } else if let Exit::Capped(why) = &run.exit {
+            println!("replay: capped ({why}) — no verdict");
+        } else {
+            for p in result_of(&run)["panics"].as_array().cloned().unwrap_or_default() {
+                let entry = p["entry"].as_str().unwrap_or("?");
+                ctx.violation(&format!("C36/{lang}/{entry}/panic/replayed-shard"), p["message"].as_str().unwrap_or("").to_string(), case.clone());
+            }
+        }
+        return;
+    }
     let mut spec = json!({"mode": "single", "lang": lang});
     if case["text"].is_string() {
         spec["text"] = case["text"].clone();
@@ -1416,10 +1462,11 @@ fn main() {
     let decl_len: usize = ctx.pick(4, 5);
     let alias_input_len: usize = ctx.pick(3, 4);
     let alias_sets_per_child: usize = ctx.pick(8, 2);
-    // quick: a coarser ladder to 3072 (the rungs 10..14 are where the exponential revset
-    // productions burn their whole cap); thorough: all rungs to 65536
+    // quick: a coarse ladder to 2048 (the rungs 10..14 are where the exponential revset
+    // productions burn their whole cap, and the deepest rungs dominate the CPU time of the
+    // tier); thorough: all rungs to 65536
     let rungs: Vec<usize> = if ctx.quick() {
-        vec![1, 2, 3, 4, 5, 6, 7, 8, 16, 32, 64, 128, 256, 512, 1024, 2048, 3072]
+        vec![1, 2, 3, 4, 6, 8, 16, 64, 256, 1024, 2048]
     } else {
         RUNGS.to_vec()
     };
@@ -1427,6 +1474,7 @@ fn main() {
     let sh = Shared {
         ctx: &ctx,
         child_ms: Mutex::new(BTreeMap::new()),
+        child_cpu_ms: Mutex::new(BTreeMap::new()),
         capped: Mutex::new(vec![]),
         totals: Mutex::new(BTreeMap::new()),
         samples: Mutex::new(vec![]),
@@ -1620,6 +1668,7 @@ fn main() {
             ("ladders".to_string(), json!(ladder_json)),
             ("capped".to_string(), json!(capped)),
             ("child_wall_ms_per_family".to_string(), json!(*sh.child_ms.lock().unwrap())),
+            ("child_cpu_ms_per_family_completed_jobs".to_string(), json!(*sh.child_cpu_ms.lock().unwrap())),
             ("cpu_cap_s_per_ladder_case".to_string(), json!(ladder_cap_s)),
             ("cpu_cap_s_per_enumeration_shard".to_string(), json!(shard_cap_s)),
             ("stack_bytes".to_string(), json!(STACK_BYTES)),
